@@ -154,10 +154,18 @@ class C09(Pipeline):
         return {}
 
     def match_known(self, finding, failure):
+        """match = {names: [monitors], entries: [{kind/param/class or act ... , optional stage}], optional stack_contains (text that must occur in the
+        recorded stack of the failing event), optional gate_newer_major_minor (Gate histories whose running software has a HIGHER major.minor
+        than the completed upgrade)}"""
         m = finding.get("match", {})
         if failure["name"] not in m.get("names", []):
             return False
         a = self._entry(failure)
+        ev = failure["event"] or {}
+        if "stack_contains" in m and m["stack_contains"] not in (ev.get("stack") or ""):
+            return False
+        if m.get("gate_newer_major_minor"):
+            return a.get("act") == "Gate" and list(a["app"]["v"][:2]) > list(a["gov"]["v"][:2])
         for alt in m.get("entries", []):
             if all(a.get(k) == v for k, v in alt.items()):
                 return True
